@@ -305,7 +305,7 @@ func genNoName(t *rapid.T) Op {
 	return op
 }
 
-func genConc(t *rapid.T, hosts []Host) Op {
+func genConc(t *rapid.T, hosts []Host, maxFresh int) Op {
 	k := rapid.IntRange(1, min(4, len(hosts))).Draw(t, "conc_hosts")
 	var chosen []int
 	for i := 0; i < k; i++ {
@@ -320,10 +320,27 @@ func genConc(t *rapid.T, hosts []Host) Op {
 			w.Hs = true
 		} else {
 			w.Reps = rapid.IntRange(1, 4).Draw(t, "w_reps")
+			if rapid.Bool().Draw(t, "w_has_fresh") {
+				w.Fresh = rapid.IntRange(1, maxFresh).Draw(t, "w_fresh")
+			}
 		}
 		op.Workers = append(op.Workers, w)
 	}
 	return op
+}
+
+// stormFresh bounds the new names per worker in the concurrent check: each
+// costs a CA signature - about 1 ms with the RSA authority, tens of
+// microseconds with the P-256 one - and much more under the race detector.
+func stormFresh(ca string) int {
+	n := 40
+	if ca == "ecdsa" {
+		n = 250
+	}
+	if kit.Race() {
+		n /= 5
+	}
+	return n
 }
 
 func genOp(t *rapid.T, hosts []Host) Op {
@@ -331,7 +348,7 @@ func genOp(t *rapid.T, hosts []Host) Op {
 	case "noname":
 		return genNoName(t)
 	case "conc":
-		return genConc(t, hosts)
+		return genConc(t, hosts, 3)
 	default:
 		return genRequest(t, hosts, k)
 	}
@@ -343,12 +360,12 @@ var oracleText = "oracle: chain verifies under the CA for the named host (SNI, e
 
 var propMachine = &kit.Prop[Case]{
 	ID: "C06", Name: "machine",
-	Rule: "rapid-drawn histories of 1..12 operations (direct GetCertificate, real handshake TLS1.2/1.3, concurrent burst, no-name request) over one mitm.Config with a drawn organization and a pool of 1..3 hosts in 1..3 spellings each (LDH names 1..4 labels, mixed case, IPv4, IPv6 bare / bracketed with port, siblings); " + oracleText + "; non-trivial = IP literal, host:port form, mixed case, cache hit, or concurrency >= 2",
-	Run:  func(c Case) kit.Verdict { return run("machine", c) },
+	Rule:       "rapid-drawn histories of 1..12 operations (direct GetCertificate, real handshake TLS1.2/1.3, concurrent burst, no-name request) over one mitm.Config with a drawn organization and a pool of 1..3 hosts in 1..3 spellings each (LDH names 1..4 labels, mixed case, IPv4, IPv6 bare / bracketed with port, siblings); " + oracleText + "; non-trivial = IP literal, host:port form, mixed case, cache hit, or concurrency >= 2",
+	Run:        func(c Case) kit.Verdict { return run("machine", c) },
 	NonTrivial: nonTrivial, Classes: classes,
-	Gates: map[string]float64{"nontrivial": 0.8, "ip-literal": 0.25, "host-port": 0.3, "mixed-case": 0.3, "cache-hit": 0.3, "handshake": 0.4, "sni": 0.4, "no-name": 0.15, "ipv6-bare": 0.05, "ipv6-bracket-port": 0.05, "sni-differs-from-fallback": 0.15},
+	Gates: map[string]float64{"nontrivial": 0.7, "ip-literal": 0.2, "host-port": 0.3, "mixed-case": 0.3, "cache-hit": 0.3, "handshake": 0.4, "sni": 0.4, "no-name": 0.08, "ipv6-bare": 0.03, "ipv6-bracket-port": 0.03, "sni-differs-from-fallback": 0.15},
 	Gen: func(t *rapid.T) Case {
-		c := Case{Org: genOrg(t), Hosts: genHosts(t)}
+		c := Case{Org: genOrg(t), CA: rapid.SampledFrom([]string{"", "", "ecdsa"}).Draw(t, "ca"), Hosts: genHosts(t)}
 		n := rapid.IntRange(1, 12).Draw(t, "n")
 		for i := 0; i < n; i++ {
 			c.Ops = append(c.Ops, genOp(t, c.Hosts))
@@ -359,12 +376,12 @@ var propMachine = &kit.Prop[Case]{
 
 var propExpiry = &kit.Prop[Case]{
 	ID: "C06", Name: "expiry",
-	Rule: "histories over a mitm.Config with SetValidity(2s): 1..4 requests, a sleep past the NotAfter of everything issued, then the same request again (the cached entry is now invalid) and 0..3 more requests or a concurrent burst; thorough: sometimes a second crossing; " + oracleText + "; non-trivial = a request for a host whose cached certificate has expired",
-	Run:  func(c Case) kit.Verdict { return run("expiry", c) },
+	Rule:       "histories over a mitm.Config with SetValidity(2s): 1..4 requests, a sleep past the NotAfter of everything issued, then the same request again (the cached entry is now invalid) and 0..3 more requests or a concurrent burst; thorough: sometimes a second crossing; " + oracleText + "; non-trivial = a request for a host whose cached certificate has expired",
+	Run:        func(c Case) kit.Verdict { return run("expiry", c) },
 	NonTrivial: func(c Case) bool { return analyse(c).crossing },
 	Classes:    classes,
 	Gen: func(t *rapid.T) Case {
-		c := Case{Org: genOrg(t), Short: true, Hosts: genHosts(t)}
+		c := Case{Org: genOrg(t), CA: rapid.SampledFrom([]string{"", "", "ecdsa"}).Draw(t, "ca"), Short: true, Hosts: genHosts(t)}
 		pre := rapid.IntRange(1, 4).Draw(t, "pre")
 		for i := 0; i < pre; i++ {
 			c.Ops = append(c.Ops, genRequest(t, c.Hosts, rapid.SampledFrom([]string{"get", "get", "hs"}).Draw(t, "kind")))
@@ -379,7 +396,7 @@ var propExpiry = &kit.Prop[Case]{
 			again.Kind = rapid.SampledFrom([]string{"get", "get", "hs"}).Draw(t, "again_kind")
 			c.Ops = append(c.Ops, again)
 			if rapid.IntRange(0, 2).Draw(t, "burst") == 0 {
-				c.Ops = append(c.Ops, genConc(t, c.Hosts))
+				c.Ops = append(c.Ops, genConc(t, c.Hosts, 3))
 			}
 			post := rapid.IntRange(0, 3).Draw(t, "post")
 			for i := 0; i < post; i++ {
@@ -392,20 +409,20 @@ var propExpiry = &kit.Prop[Case]{
 
 var propConcurrent = &kit.Prop[Case]{
 	ID: "C06", Name: "concurrent",
-	Rule: "0..3 warm-up requests, then 1..3 bursts of 2..12 (thorough 16) goroutines over 1..4 hosts of the pool, each goroutine doing 1..4 direct requests or one real handshake, released by a barrier; " + oracleText + " - for the name each requester asked for; non-trivial = at least 2 goroutines",
-	Run:  func(c Case) kit.Verdict { return run("concurrent", c) },
+	Rule:       "0..3 warm-up requests, then 1..3 bursts of 2..12 (thorough 16) goroutines over 1..4 hosts of the pool, each goroutine doing 1..4 direct requests plus 0..40 (RSA authority) / 0..250 (P-256 authority) rounds over a shared sequence of never-seen names (forcing issuance while others ask), or one real handshake, released by a barrier, judged after the burst; " + oracleText + " - for the name each requester asked for; non-trivial = at least 2 goroutines",
+	Run:        func(c Case) kit.Verdict { return run("concurrent", c) },
 	NonTrivial: func(c Case) bool { return analyse(c).conc },
 	Classes:    classes,
 	Gates:      map[string]float64{"nontrivial": 0.9, "handshake": 0.3, "cache-hit": 0.3},
 	Gen: func(t *rapid.T) Case {
-		c := Case{Org: genOrg(t), Hosts: genHosts(t)}
+		c := Case{Org: genOrg(t), CA: rapid.SampledFrom([]string{"", "ecdsa", "ecdsa"}).Draw(t, "ca"), Hosts: genHosts(t)}
 		warm := rapid.IntRange(0, 3).Draw(t, "warm")
 		for i := 0; i < warm; i++ {
 			c.Ops = append(c.Ops, genRequest(t, c.Hosts, "get"))
 		}
 		bursts := rapid.IntRange(1, 3).Draw(t, "bursts")
 		for i := 0; i < bursts; i++ {
-			c.Ops = append(c.Ops, genConc(t, c.Hosts))
+			c.Ops = append(c.Ops, genConc(t, c.Hosts, stormFresh(c.CA)))
 		}
 		return c
 	},
@@ -413,8 +430,8 @@ var propConcurrent = &kit.Prop[Case]{
 
 var propMatrix = &kit.Prop[Case]{
 	ID: "C06", Name: "matrix",
-	Rule: "fixed matrix: every listed spelling class (lower/mixed-case names, 63-byte label, 253-byte name, punycode, IPv4, IPv6 loopback/compressed/upper-case/expanded/IPv4-mapped, each bare and with port) x {direct, cache hit, handshake TLS1.3, handshake TLS1.2, SNI same / SNI different / SNI through Config.TLS()}, plus the six no-name requests; " + oracleText,
-	Run:  func(c Case) kit.Verdict { return run("matrix", c) },
+	Rule:       "fixed matrix: every listed spelling class (lower/mixed-case names, 63-byte label, 253-byte name, punycode, IPv4, IPv6 loopback/compressed/upper-case/expanded/IPv4-mapped, each bare and with port) x {direct, cache hit, handshake TLS1.3, handshake TLS1.2, SNI same / SNI different / SNI through Config.TLS()}, plus the six no-name requests; " + oracleText,
+	Run:        func(c Case) kit.Verdict { return run("matrix", c) },
 	NonTrivial: nonTrivial, Classes: classes,
 }
 
